@@ -44,6 +44,9 @@ type c19pCase struct {
 	Items  int    `json:"items"`
 	Result string `json:"result"` // same | fewer | more | skip | error
 	Tracing string `json:"tracing,omitempty"`
+	// NonMutating: the processor is built with WithCapabilities(MutatesData: false) - it does not touch what it is given and
+	// returns a payload of its own (a filter, an aggregator): the counters follow what is forwarded all the same
+	NonMutating bool `json:"declares_not_mutating,omitempty"`
 }
 
 func c19pOut(c c19pCase) int {
@@ -86,7 +89,7 @@ func c19pRun(c c19pCase) (string, string) {
 				sl.LogRecords().AppendEmpty()
 			}
 			return n, nil
-		})
+		}, WithCapabilities(consumer.Capabilities{MutatesData: !c.NonMutating}))
 		if err != nil {
 			return "construct", err.Error()
 		}
@@ -108,7 +111,7 @@ func c19pRun(c c19pCase) (string, string) {
 				ss.Spans().AppendEmpty()
 			}
 			return n, nil
-		})
+		}, WithCapabilities(consumer.Capabilities{MutatesData: !c.NonMutating}))
 		if err != nil {
 			return "construct", err.Error()
 		}
@@ -130,7 +133,7 @@ func c19pRun(c c19pCase) (string, string) {
 				g.DataPoints().AppendEmpty()
 			}
 			return n, nil
-		})
+		}, WithCapabilities(consumer.Capabilities{MutatesData: !c.NonMutating}))
 		if err != nil {
 			return "construct", err.Error()
 		}
@@ -183,7 +186,11 @@ func TestVerif(t *testing.T) {
 		for _, n := range []int{0, 1, 3} {
 			for _, r := range []string{"same", "fewer", "more", "skip", "error"} {
 			for _, tr := range c19TracingModes {
-				c := c19pCase{s, n, r, tr}
+			for _, nm := range []bool{false, true} {
+				if nm && tr != c19TracingModes[0] {
+					continue
+				}
+				c := c19pCase{s, n, r, tr, nm}
 				ctx.R.Evals++
 				ctx.R.Trans++
 				ctx.Nontrivial(vr.Hash(fmt.Sprint(c)))
@@ -194,6 +201,7 @@ func TestVerif(t *testing.T) {
 					ctx.R.Traces++
 				}
 				ctx.Sample(c)
+			}
 			}
 			}
 		}
